@@ -1182,9 +1182,16 @@ func ruleC13GoroutineRowSnapshot(c *Ctx) {
 		return
 	}
 	// the parameter itself, or the cell it was spilled to because a closure captures it
-	isLiveRow := func(v ssa.Value) bool {
+	var isLiveRow func(v ssa.Value) bool
+	isLiveRow = func(v ssa.Value) bool {
 		if v == ssa.Value(row) {
 			return true
+		}
+		// a read of the cell the parameter was spilled to (another closure of the function captures it)
+		if ld, ok := v.(*ssa.UnOp); ok && ld.Op == token.MUL {
+			if _, isCell := ld.X.(*ssa.Alloc); isCell {
+				return isLiveRow(ld.X)
+			}
 		}
 		if al, ok := v.(*ssa.Alloc); ok && al.Referrers() != nil {
 			n, only := 0, false
